@@ -11,7 +11,9 @@ LEVEL = "exploration"
 RULE = ("every byte string written by the C01/C02/C14 serializer workloads (generic and rdflib, three physical "
         "types, all entry points, delimited and single-frame, with and without namespace declarations; one case in five with "
         "prefix/datatype tables smaller than a row needs, where the serializer may refuse; one case in six writes 2-5 sinks with "
-        "repeating namespace bindings through ONE stream via grouped_stream_to_frames/_to_file) is decoded by "
+        "repeating namespace bindings through ONE stream via grouped_stream_to_frames/_to_file; one in seven is the output of a "
+        "catch-and-continue caller of stream.triple/quad/graph after a statement was rejected half-way by each cause of C20, "
+        "continuing directly or through enroll()) is decoded by "
         "rv.wire + rv.refdec (strict graph bracketing); a SpecViolation of any kind, or decoded statements != input "
         "(sequence for generic input, set for rdflib stores/inputs), is a violation. Non-trivial: >= 2 statements and "
         ">= 1 eviction, elision or zero-form id validated; distinct by hash of (config, statements).")
@@ -115,6 +117,45 @@ def run_shard(ctx):
                     ctx.observe("streams-decoded")
                 ctx.case(("boundary", sorted(cfg.items()), target, len(stmts)), False)
             continue
+        if i % 7 == 3:
+            # bytes produced by a catch-and-continue caller: a statement is rejected half-way (unsupported object, short
+            # tuple, string protobuf cannot encode, typed literal without datatype table) and the loop carries on with
+            # the same stream.  Whatever is produced must still be a valid stream (C20 judges what it decodes to).
+            from . import c20
+            for _k in range(4):
+                integ, ccfg, cst, dt_dis = c20.make_case(rng)
+                pos = rng.randrange(len(cst))
+                seq = list(cst)
+                if pos + 1 < len(seq):
+                    seq[pos + 1] = cst[pos]
+                sites = list(c20.fault_sites(integ, ccfg["physical"], cst[pos], dt_dis))
+                fault = rng.choice(sites)
+                via = rng.choice(c20.CONTINUATIONS[:2])
+                try:
+                    run = c20.drive(integ, ccfg, seq, pos, fault, None, via)
+                    data, res = c20.decode_frames(run["frames"])
+                except wire.WireError as e:
+                    ctx.violation({"clause": "malformed", "summary": f"catch-and-continue caller: {e}", "kind": "interrupted"})
+                    continue
+                except Exception as e:  # noqa: BLE001
+                    ctx.inconc(f"catch-and-continue driver failed: {type(e).__name__}: {e}")
+                    continue
+                ctx.observe("catch-and-continue-streams")
+                rejected = pos < len(run["outcomes"]) and run["outcomes"][pos][0] == "raised"
+                if rejected:
+                    ctx.observe(f"catch-and-continue-rejections:{fault[2]}")
+                if res.violation is not None:
+                    ctx.violation({"clause": "invalid-after-rejection", "kind": "interrupted", "integration": integ, "cfg": ccfg,
+                                   "stmts": T.to_json(seq), "fault_at": pos, "fault": list(fault), "via": via, "bytes": data.hex(),
+                                   "summary": f"{integ} physical {ccfg['physical']}: after statement #{pos} was rejected ({fault[2]} in "
+                                              f"slot {fault[0]}) and the caller carried on ({via}), the produced bytes are not a "
+                                              f"valid stream: {res.violation}"})
+                else:
+                    ctx.observe("streams-decoded")
+                ctx.case(("interrupted", integ, sorted(ccfg.items()), seq, pos, fault, via), rejected and len(seq) - pos > 1,
+                         sample={"kind": "catch-and-continue", "integration": integ, "cause": fault[2], "position": pos,
+                                 "statements": len(seq), "via": via})
+            continue
         if i % 6 == 0:
             cfg, groups, nss = workloads.multi_sink_case(rng, with_ns=rng.random() < .7)
             w, res = check_groups(cfg, groups, nss)
@@ -169,8 +210,16 @@ def run_shard(ctx):
 
 
 def replay(w: dict):
+    if w.get("kind") == "interrupted" and "cfg" not in w:
+        return {"clause": w["clause"], "summary": "re-run ./check C03 with the same VERIF_SEED"}
     cfg = w["cfg"]
     cfg["preset"] = tuple(cfg["preset"])
+    if w.get("kind") == "interrupted":
+        from . import c20
+        f = w["fault"]
+        run = c20.drive(w["integration"], cfg, list(T.from_json(w["stmts"])), w["fault_at"], (f[0], f[1], f[2]), None, w["via"])
+        _data, res = c20.decode_frames(run["frames"])
+        return {"clause": "invalid-after-rejection", "summary": str(res.violation)} if res.violation is not None else None
     if "groups" in w:
         groups = [list(g) for g in T.from_json(w["groups"])]
         r = check_groups(cfg, groups, [[tuple(b) for b in n] for n in w["nss"]])[0]
